@@ -95,6 +95,13 @@ def main(tier: str) -> int:
             # all logits far below zero; the softmax must still be the joint normalisation
             X[2] = np.array([rng.uniform(20, 60) for _ in range(nin)])
             W[2] = -10.0
+        # weight vectors with whole blocks switched off (pruned connections): every weight into some targets exactly 0, and the
+        # all-zero vector; the row before it in the batch has ordinary values (a reused node buffer must be overwritten)
+        if nconn:
+            tg = sorted({int(c[1]) for c in net._connects})
+            off = set(tg[: max(1, len(tg) // 2)]) if rng.random() < 0.7 else set(tg)
+            if not any(int(v) == 5 for v in net._activs.values()) or rng.random() < 0.5:
+                W[1] = np.array([0.0 if int(c[1]) in off else W[1][k] for k, c in enumerate(net._connects)])
         d = {"net": name, "connections": nconn}
         chk.case((name, nconn), sample={**d, "inputs": sorted(int(i) for i in net._inputs), "outputs": sorted(int(i) for i in net._outputs)} if len(chk.samples) < 4 else None)
         chk.count(name.split(":")[0].split("(")[0])
